@@ -535,11 +535,17 @@ class Gen:
             return (scope, init, form, False)
         if kind == "dfor":
             if r.random() < 0.25:
-                final = ("dstar", self.expr(vis, 1, False), self.expr(vis, 1, setx_ok))
+                ek = self.expr(vis, 1, False)
+                if stm_p and r.random() < 0.6:
+                    ek = ("stm", self.skey(), ek)      # the unpacked mapping leaves statements behind
+                final = ("dstar", ek, self.expr(vis, 1, setx_ok))
             else:
                 final = ("kv", self.expr(vis, 1, False, stm_p), self.expr(vis, 1, setx_ok, stm_p))
         elif r.random() < 0.2:
-            final = ("star", ("list", [self.expr(vis, 1, setx_ok) for _ in range(r.randint(0, 2))]))
+            it = ("list", [self.expr(vis, 1, setx_ok) for _ in range(r.randint(0, 2))])
+            if stm_p and r.random() < 0.6:
+                it = ("stm", self.skey(), it)          # the unpacked iterable leaves statements behind
+            final = ("star", it)
         else:
             final = ("val", self.expr(vis, 0, setx_ok, stm_p))
         return (scope, init, ("comp", kind, cl, final), kind == "gfor" and r.random() < 0.7)
